@@ -15,7 +15,7 @@ inductive CVValid (n : Int) : CV → Prop
   | sliding {fh wl step iw} (v : Split.Spec.Valid .sliding n wl step fh iw true) : CVValid n (.sliding fh wl step iw true)
   | expanding {fh wl step} (v : Split.Spec.Valid .expanding n wl step fh none true) : CVValid n (.expanding fh wl step true)
   | single {fh wl} (hs : fh.Pairwise (· < ·)) (hne : fh ≠ []) (hpos : ∀ h ∈ fh, 0 < h)
-      (hwl : ∀ w, wl = some w → 1 ≤ w) (hfit : fhMax fh ≤ n - 1) : CVValid n (.single fh wl)
+      (hwl : ∀ w, wl = some w → 1 ≤ w ∧ w + fhMax fh ≤ n) (hfit : fhMax fh ≤ n - 1) : CVValid n (.single fh wl)
   | cutoff {cs fh wl} (v : C01.CutoffValid n wl cs fh) : CVValid n (.cutoff cs fh wl)
 
 /-- the series and exogenous data `evaluate` is given: distinct ordered time points, exogenous rows
@@ -99,7 +99,7 @@ theorem foldsOK_window {k n wl step fh iw} (v : Split.Spec.Valid k n wl step fh 
 /-- the single-window splitter -/
 theorem foldsOK_single (n : Int) (fh : List Int) (wl : Option Int)
     (hs : fh.Pairwise (· < ·)) (hne : fh ≠ []) (hpos : ∀ h ∈ fh, 0 < h)
-    (hwl : ∀ w, wl = some w → 1 ≤ w) (hfit : fhMax fh ≤ n - 1) (fs : List Fold)
+    (hwl : ∀ w, wl = some w → 1 ≤ w ∧ w + fhMax fh ≤ n) (hfit : fhMax fh ≤ n - 1) (fs : List Fold)
     (h : singleSplit n fh wl = .ok fs) : FoldsOK n (fhMin fh) fs := by
   have h1 := (C01.single_window_fold n fh wl hs hne hpos hwl (by omega)).1
   rw [h1] at h
@@ -116,7 +116,7 @@ theorem foldsOK_single (n : Int) (fh : List Int) (wl : Option Int)
   · cases wl <;> simp
   · cases wl with
     | none => simp; omega
-    | some w => have := hwl w rfl; simp; omega
+    | some w => have := (hwl w rfl).1; simp; omega
   · omega
 
 /-- the cutoff splitter -/
